@@ -153,6 +153,7 @@ def main():
     for idx, (sess, r, mline) in enumerate(zip(sessions, impl, model)):
         msteps = mline.split(" | ")
         tree_verdicts = []
+        memo_diverged = False
         for j, (st, ir, m) in enumerate(zip(sess["steps"], r["steps"], msteps)):
             nchecks += 1
             small = dict(sess, steps=sess["steps"][:j + 1])
@@ -173,10 +174,15 @@ def main():
             got = "%s %s" % (v, ir["memo"])
             if got != m:
                 vd = v != m.split(" ")[0]
-                R.violation("property" if (vd and proved) else "correspondence",
-                            "step %d: isinstance(%s, PyTree[%s]) -> implementation `%s`, model `%s`" % (j, json.dumps(st.get("value", st.get("shape"))), json.dumps(st.get("leaf", st.get("dim"))), got, m),
+                if not vd and memo_diverged:
+                    continue          # (bindings already reported as different; keep going to see whether a VERDICT goes wrong because of it)
+                R.violation("property" if (vd and (proved or memo_diverged)) else "correspondence",
+                            "step %d: isinstance(%s, PyTree[%s]) -> implementation `%s`, model `%s`%s" % (j, json.dumps(st.get("value", st.get("shape"))), json.dumps(st.get("leaf", st.get("dim"))), got, m,
+                                                                                                    " (the bindings had already come out different at an earlier step of this session)" if memo_diverged else ""),
                             {"session": small, "step": j, "impl": got, "model": m}, key={"kind": "verdict" if vd else "memo"}, no_input=not vd)
-                break
+                if vd:
+                    break
+                memo_diverged = True          # bindings differ but the verdict does not (yet): the following steps of the session decide
         # PyTree[L] and PyTree[PyTree[L]] accept the same values with the same bindings (model-independent)
         if len(tree_verdicts) >= 2 and idx >= len(CORPUS):
             a, b = tree_verdicts[0], tree_verdicts[1]
